@@ -40,6 +40,8 @@ NPQ_KERNELS = [
     dict(name="Bench_Schwefel12_f", file=B, cls="Schwefe1_2", func="f"),
     dict(name="Bench_Rosenbrock_f", file=B, cls="Rosenbrock", func="f"),
     dict(name="Bench_Rastrigin_f", file=B, cls="Rastrigin", func="f", cos2pi="cs"),
+    # Griewank.f: `np.cos(x / sqrt_i)` with sqrt_i = sqrt(1..D) is the function parameter `csi i a` (= cos(a / sqrt(i+1)), i the column)
+    dict(name="Bench_Griewank_f", file=B, cls="Griewank", func="f", cos_sqrt_idx="csi"),
     # jDE's parameter regeneration (C15): which entries are redrawn (the mask of the first draw against the rate) and from what
     # (the second draw, affinely mapped for F); `uniform(0, 1, size=n)` is the function parameter `draw <ordinal> n`
     dict(name="jDE_get_mutate_F", file="optimizers/_jde.py", cls="jDE", func="_get_mutate_F", params=[], ret="VQ",
@@ -369,6 +371,7 @@ class TrQ:
         self.lines = []
         self.n = 0
         self.draws = 0
+        self.sqi_of = {}
 
     ind = "  "
 
@@ -520,6 +523,40 @@ class TrQ:
             if (ka, kb) != ("VQ", "S1"):
                 raise NotRecognised("< operand kinds")
             return f"(NpQ.ltMask {a} {b})", "MB"
+        if self.cfg.get("cos_sqrt_idx"):
+            # np.sqrt(np.arange(1, M.shape[1] + 1)): the square roots of 1..D for the D columns of M (kind SQI, never evaluated by itself)
+            if isinstance(e, ast.Call) and is_np(e.func, "sqrt") and len(e.args) == 1 and not e.keywords:
+                src = ast.unparse(e.args[0])
+                if src.startswith("np.arange(1, ") and src.endswith(".shape[1] + 1)") and self.env.get(src[13:-14]) == "Q":
+                    return src[13:-14], "SQI"
+                raise NotRecognised("sqrt operand " + src)
+            # np.cos(M / sqrt_i) for sqrt_i the roots of 1..D of the SAME array M
+            if isinstance(e, ast.Call) and is_np(e.func, "cos") and len(e.args) == 1 and not e.keywords:
+                a = e.args[0]
+                if isinstance(a, ast.BinOp) and isinstance(a.op, ast.Div) and isinstance(a.left, ast.Name) and self.env.get(a.left.id) == "Q" \
+                        and isinstance(a.right, ast.Name) and self.env.get(a.right.id) == "SQI" and self.sqi_of.get(a.right.id) == a.left.id:
+                    return f"(NpQ.mapIdxCols {self.cfg['cos_sqrt_idx']} {a.left.id})", "Q"
+                raise NotRecognised("cos operand " + ast.unparse(a))
+            # np.prod(M, axis=-1)
+            if isinstance(e, ast.Call) and is_np(e.func, "prod") and len(e.args) == 1 and [k.arg for k in e.keywords] == ["axis"] and is_const(e.keywords[0].value, -1):
+                x, k = self.E(e.args[0])
+                if k != "Q":
+                    raise NotRecognised("prod of a non-array")
+                return f"(NpQ.prodRows {x})", "V"
+            # M / c for a non-zero literal c
+            if isinstance(e, ast.BinOp) and isinstance(e.op, ast.Div) and isinstance(e.right, ast.Constant) and isinstance(e.right.value, (int, float)) \
+                    and not isinstance(e.right.value, bool) and e.right.value != 0 and self._kind(e.left) == "Q":
+                return f"(NpQ.map (fun a => a / {self.lit(e.right)}) {self.E(e.left)[0]})", "Q"
+            # row vectors (kind V): v op w, v op c
+            if isinstance(e, ast.BinOp) and type(e.op) in (ast.Add, ast.Sub) and self._kind(e.left) == "V":
+                op = "+" if isinstance(e.op, ast.Add) else "-"
+                a, _ = self.E(e.left)
+                b, kb = self.E(e.right)
+                if kb == "V":
+                    return self.bind(f"NpQ.vzip (fun a b => a {op} b) {a} {b}"), "V"
+                if kb == "S":
+                    return f"({a}.map (fun a => a {op} {b}))", "V"
+                raise NotRecognised("operand kinds in " + ast.unparse(e))
         if isinstance(e, ast.Attribute) and e.attr == "T":
             x, k = self.E(e.value)
             if k not in ("Q", "QT"):
@@ -716,7 +753,12 @@ class TrQ:
             if not (isinstance(st, ast.Assign) and len(st.targets) == 1 and isinstance(st.targets[0], ast.Name)):
                 raise NotRecognised("statement " + ast.unparse(st)[:60])
             x, k = self.E(st.value)
-            if k not in ("Q", "QT", "VQ", "S1", "MB", "N"):
+            if k == "SQI":
+                # the root vector is only ever used inside np.cos(M / sqrt_i): remember which array it belongs to, emit nothing
+                self.sqi_of[st.targets[0].id] = x
+                self.env[st.targets[0].id] = k
+                continue
+            if k not in ("Q", "QT", "VQ", "S1", "MB", "N") and not (k == "V" and self.cfg.get("cos_sqrt_idx")):
                 raise NotRecognised("assigned kind")
             self.lines.append(f"  let {st.targets[0].id} := {x}")
             self.env[st.targets[0].id] = k
@@ -725,7 +767,7 @@ class TrQ:
             raise NotRecognised("returned kind")
         self.lines.append(f"  return {x}")
         lean_k = {"Q": "NpQ.Mat", "VQ": "List Rat", "N": "Nat", "S1": "Rat"}
-        params = ([f"({cfg['cos2pi']} : Rat → Rat)"] if cfg.get("cos2pi") else []) + (["(draw : Nat → Nat → List Rat)"] if self.draws else []) \
+        params = ([f"({cfg['cos2pi']} : Rat → Rat)"] if cfg.get("cos2pi") else []) + ([f"({cfg['cos_sqrt_idx']} : Nat → Rat → Rat)"] if cfg.get("cos_sqrt_idx") else []) + (["(draw : Nat → Nat → List Rat)"] if self.draws else []) \
             + [f"(self{a} : {lean_k[k_]})" for a, k_ in cfg.get("self_attrs", [])] + [f"({p} : {lean_k[k_]})" for p, k_ in plist]
         cls_txt = (cfg["cls"] + ".") if cfg["cls"] else ""
         ret_ty = "Rat" if cfg.get("ret") == "S1" else "List Rat"
